@@ -400,7 +400,7 @@ def wrap_file(ds, cfg, arrs, xmls, counts=None) -> bytes:
 
 HDR_DEFAULT = [" ", "=", "", "\n"]           # a1, a2, a3, ws of Spec.RawFile
 HDR_STYLES = [HDR_DEFAULT, ["\n  ", " = ", " ", "\n   "], [" ", "=", " " * 40, "\n"], ["  ", "= ", " " * 60, "\n "],
-              [' info="x"  ', "=", ' more="y"', "\n  "], [" ", "=", "", "\n\t"]]
+              [' info_1="x_y"  ', "=", ' more="y"', "\n  "], [" ", "=", "", "\n\t"]]
 # style 5 (a TAB between `>` and `_`) is legal for VTK but only generated for raw appendices: for XML-parsable
 # (base64) files `elem.text.strip("_ \n")` leaves the tab in front of the data and every offset > 0 is shifted
 # (observation C05-APPWS in NOTES_C05.md, not registered).  FCV_C05_APPWS=1 generates it for base64 too.
@@ -767,7 +767,7 @@ class Batch:
             cls = raw_tag_class(cfg, info) or appws_class(cfg, info)
             ctx.violation(case, brief(impl, d), brief(expected, d), cls=cls,
                           what=f"read_field_data differs from the logical content of the file in {d[:6]} (cfg {cfg_key(cfg)})"
-                               + (f" [class {cls}: raw appendix contains the bytes </AppendedData> or <AppendedData]" if cls else ""))
+                               + (f" [class {cls}: {CLASS_TEXT[cls]}]" if cls else ""))
             if model_ok and cls is None:
                 ctx.mismatch(case, brief(impl, d), brief(expected, d), what="implementation vs model reader")
         return {"ok": not d, "diff": d, "impl": impl, "expected": expected}
@@ -776,6 +776,8 @@ class Batch:
 # ------------------------------------------------------------------ finding classes
 
 RAW_TAG_NEEDLES = (b"</AppendedData>", b"<AppendedData")
+CLASS_TEXT = {"C05-RAWTAG": "raw appendix contains the bytes </AppendedData> or <AppendedData",
+              "C05-APPWS": "base64 appendix with a character other than blank / line break between > and _"}
 
 
 def appws_class(cfg, info):
@@ -1265,7 +1267,7 @@ def synthetic_rawfiles(rng, count: int):
         if rng.random() < 0.1:
             pre += rng.choice([b"<!-- <AppendedData -->", b"<!-- </AppendedData> -->", b"<AppendedDat", b"</AppendedData"])
         parts = {"pre": pre,
-                 "a1": rng.choice([b" ", b" ", b"\n", b"  ", b' foo="bar" ', b' encodin="x" ', b' a="encoding" ']),
+                 "a1": rng.choice([b" ", b" ", b"\n", b"  ", b' foo="bar" ', b' a_b="_" ', b' encodin="x" ', b' a="encoding" ']),
                  "a2": rng.choice([b"=", b"=", b" = ", b"= "]),
                  "enc": rng.choice([b"raw", b"raw", b"base64", b"binary", b""]),
                  "a3": rng.choice([b"", b"", b" ", b' x="1"', b" " * 70]),
